@@ -57,10 +57,10 @@ class Obligation:
 class Ctx:
     """Analysis context for one run over one source tree."""
 
-    def __init__(self, root, prop):
+    def __init__(self, root, prop, normalise=False):
         self.root = root
         self.prop = prop
-        self.prog = Program(root)
+        self.prog = Program(root, normalise=normalise)
         self.res = Resolver(self.prog)
         self._cg = None
         self._eff = None
